@@ -40,6 +40,17 @@ check("C08", "model_checking",
   "Histories longer than D, other file shapes and page layouts are not covered; async mode is exercised only as a sequential client here (schedules are C15's); merged/concatenated forward-only readers are C09's.",
   "DESIGN.md §2 C08")
 
+check("C02", "exploration",
+  "bounded exhaustive enumeration of written files (row type x row sequence x history x option lattice within the deviation bound), each decided by an independent spec-only Parquet decoder (pqref) on the raw bytes plus stream equality with the library's reader",
+  "Every enumerated file is parsed and fully checked by pqref - a decoder written from the format specification that shares no code with the library: magic/footer, per-row-group and per-chunk sizes/offsets/counts, page tiling, encodings and encoding_stats, decompressed sizes, v2 level lengths/num_rows/num_nulls, CRC32, pages starting at repetition level 0, offset index and column index cardinalities, bloom filter framing - and the (repetition, definition, value) streams it decodes must equal what the library reads. A writer bug mirrored by a reader tolerance cannot hide from it (it found the symmetric RLE boolean run defect).",
+  "Trusted base: pqref itself (tested against files of other implementations in /repo/testdata) and the upstream zstd/brotli decompressors. Null-page min/max placeholders are not required to be empty. WriteRowGroup copy/re-encode outputs are checked under C11.",
+  "DESIGN.md §2 C02")
+check("C05", "exploration",
+  "bounded exhaustive enumeration of page layouts (sequences of page kinds over boundary-value alphabets, cut with ColumnWriter.Flush) x column type x repetition x row-group cut x index size limit x page version x statistics options; oracle = pqref's bound/count/histogram/boundary-order checks on the raw bytes + the library's own accessors",
+  "For 18 ordered column types and required/optional/repeated columns, every sequence of <=2 (quick) / <=3 (thorough) pages over {all-null page, {a}, {a,b}} - including NaN, -0, infinities, extremes, 0xFF-prefixed byte strings under truncation limits - is written with exactly that page layout, optionally split into two row groups. Page-header statistics, chunk statistics, column index entries, null counts/null pages, level histograms and the claimed boundary order are recomputed from the decoded pages by the independent decoder, and ColumnIndex()/Bounds()/NullCount() must agree.",
+  "Alphabets of 4-6 values per type and <=3 pages; a NaN bound on a unit holding only NaN is accepted (it bounds nothing and readers must ignore it); copy-path statistics are covered by C11's check.",
+  "DESIGN.md §2 C05")
+
 NOT_YET = "check not built yet in this round (design in DESIGN.md §2); not claimed until its check exists"
 
 m = {
